@@ -701,7 +701,20 @@ class Interp(Engine):
             return key, spec
         return None, None
 
+    phase_waits = None
+
     def x_While(self, s):
+        if self.phase_waits and id(s) in self.phase_waits:
+            # wait loop of a phase extraction (builtins_.extract_phases): test and body run at most once in a step;
+            # the body ends in its `(yield e)` (StepYield: the step ends, suspended in this loop) unless it breaks
+            c = self.truth(self.eval(s.test))
+            if not (c if isinstance(c, bool) else self.branch(c)):
+                return
+            try:
+                self.exec_block(s.body)
+            except _Brk:
+                return
+            raise Unsupported("wait loop at line %d completed a pass without yield or break" % s.lineno)
         key, spec = self.next_loop_spec(s)
         if spec is None:
             # no invariant: unroll while the condition is decided (bounded by a fuel; fuel exhaustion is exit 3)
